@@ -145,6 +145,10 @@ STRUCTS = {
     'none': lambda L: None,
     'namedtuple': lambda L: P2(L(), L()),
     'empty': lambda L: [],
+    # one container object referenced twice in the same call (rows of a table built with [row] * 2, f(x, x), ...)
+    'alias_list': lambda L: (lambda r: [r, r])([L(), L()]),
+    'alias_dict': lambda L: (lambda r: {'s': r, 't': [r]})((L(),)),
+    'alias_args': lambda L: [L(), [L()]],
 }
 REBUILDABLE = (list, tuple, set, frozenset)
 
@@ -237,7 +241,7 @@ class Rounding:
             return None
         L = lambda: new_leaf(ctx)
         x = STRUCTS[cfg['struct']](L)
-        y = L()
+        y = x if cfg['struct'] == 'alias_args' else L()        # f(x, x): the same object bound to two parameters
         callform = ctx.choice(2, 'form')
         args, kw = ((x,), {'y': y}) if callform == 0 else ((x, y), {})
         n_apps = len(ctx.apps) if not ctx.concrete() else 0
